@@ -37,19 +37,21 @@ type Cond struct {
 }
 
 type Assn struct {
-	II      int64
-	Issuer  *string // nil: element absent (unmarshals to "")
-	Subject *[]SConf
-	Cond    *Cond
-	Ident   string
-	Sig     string // none | idp | idp2 | attacker
-	Wrap    string // p | e | b
+	II           int64
+	Issuer       *string // nil: element absent (unmarshals to "")
+	IssuerFormat string  // Format attribute of the Issuer element ("" = absent); no check may depend on it
+	Subject      *[]SConf
+	Cond         *Cond
+	Ident        string
+	Sig          string // none | idp | idp2 | attacker
+	Wrap         string // p | e | b
 }
 
 type Resp struct {
 	Dest, IRT    string
 	II           int64
 	Issuer       *string
+	IssuerFormat string
 	Status       string
 	StatusNested []string // StatusCode elements nested below the top-level one (must not matter)
 	Entries      []Assn
@@ -185,7 +187,7 @@ func (b *builder) assertionEl(a Assn, n int) *etree.Element {
 		ID:           fmt.Sprintf("id-a%d-%d", b.c.n, n),
 		IssueInstant: time.UnixMilli(a.II).UTC(),
 		Version:      "2.0",
-		Issuer:       saml.Issuer{Value: a.issuerStr()},
+		Issuer:       saml.Issuer{Value: a.issuerStr(), Format: a.IssuerFormat},
 		AttributeStatements: []saml.AttributeStatement{{Attributes: []saml.Attribute{{
 			Name: "ident", Values: []saml.AttributeValue{{Type: "xs:string", Value: a.Ident}}}}}},
 	}
@@ -243,7 +245,30 @@ func (b *builder) assertionEl(a Assn, n int) *etree.Element {
 		el = signed
 	}
 	switch a.Wrap {
-	case "e", "b", "b-empty", "b-blank", "b-ivonly", "b-truncated", "b-flipped", "b-nokey", "b-noroot-empty", "b-noroot-space", "b-noroot-comment", "b-noroot-pi", "b-key-empty", "b-key-truncated":
+	case "b-3des-pad09", "b-3des-pad10", "b-3des-pad12", "b-3des-pad16", "b-3des-pad08", "b-3des-pad00":
+		// tripledes-cbc, exactly IV + one block, the IV chosen so that the last decrypted byte (the padding length) is NN:
+		// no key needed — the last plaintext byte is D(C)[7] xor IV[7], and a 3-byte plaintext is padded with 05
+		enc := xmlenc.OAEP()
+		enc.BlockCipher = xmlenc.TripleDES
+		enc.DigestMethod = &xmlenc.SHA1
+		ed, err := enc.Encrypt(b.spCert, []byte("abc"), nil)
+		must(err)
+		ed.CreateAttr("Type", "http://www.w3.org/2001/04/xmlenc#Element")
+		if cd := ed.SelectElement("CipherData"); cd != nil {
+			if cv := cd.SelectElement("CipherValue"); cv != nil {
+				raw, _ := base64.StdEncoding.DecodeString(cv.Text())
+				var v int
+				fmt.Sscanf(a.Wrap[len("b-3des-pad"):], "%d", &v)
+				if len(raw) == 16 {
+					raw[7] ^= 5 ^ byte(v)
+				}
+				cv.SetText(base64.StdEncoding.EncodeToString(raw))
+			}
+		}
+		ea := etree.NewElement("saml:EncryptedAssertion")
+		ea.AddChild(ed)
+		return ea
+	case "e", "b", "b-spkey", "b-empty", "b-blank", "b-ivonly", "b-truncated", "b-flipped", "b-nokey", "b-noroot-empty", "b-noroot-space", "b-noroot-comment", "b-noroot-pi", "b-key-empty", "b-key-truncated":
 		doc := etree.NewDocument()
 		doc.SetRoot(el)
 		buf, err := doc.WriteToBytes()
@@ -324,7 +349,7 @@ func (b *builder) responseEl(r Resp) *etree.Element {
 		Destination: r.Dest, Status: saml.Status{StatusCode: saml.StatusCode{Value: r.Status}},
 	}
 	if r.Issuer != nil {
-		rs.Issuer = &saml.Issuer{Value: *r.Issuer}
+		rs.Issuer = &saml.Issuer{Value: *r.Issuer, Format: r.IssuerFormat}
 	}
 	inner := &rs.Status.StatusCode
 	for _, v := range r.StatusNested {
